@@ -654,6 +654,8 @@ func BitsCoord(r *R) float64 {
 		return float64(r.IntRange(-1000, 1000))
 	case 5:
 		return math.MaxFloat64 * float64(1-2*r.Intn(2))
+	case 6:
+		return float64(math.Float32frombits(uint32(r.Uint64()))) // single-precision values (incl. float32 NaN/Inf widened)
 	default:
 		return math.Float64frombits(r.Uint64())
 	}
@@ -674,6 +676,16 @@ func FiniteBitsCoord(r *R) float64 {
 			f = r.Range(-180, 180)
 		case 4:
 			f = math.Pow(10, r.Range(-300, 300)) * float64(1-2*r.Intn(2))
+		case 5:
+			// exactly representable in single precision (data read from float32 grids): the
+			// shortest float32 spelling of such a value does not parse back to the same float64
+			f = float64(float32(r.Range(-1000, 1000)))
+			if r.Chance(0.3) {
+				f = float64(math.Float32frombits(uint32(r.Uint64())))
+			}
+		case 6:
+			// short decimal values (1 to 6 decimals), as typed by people
+			f = math.Round(r.Range(-1000, 1000)*math.Pow(10, float64(r.Intn(7)))) / math.Pow(10, float64(r.Intn(7)))
 		default:
 			f = math.Float64frombits(r.Uint64())
 		}
